@@ -68,6 +68,7 @@ CLAIMS = {
           '(fillResults_any_order, parallel_eq_serial, parallel_order_irrelevant). For every work list whose per-source results satisfy the contract the code itself enforces (children cover exactly the parent - the footprint guard - and are numbered 1..k; distinct non-zero parent labels), '
           'the merge loop with its running max_label (merge_refines, by the loop invariant J / J_step / J_fold): leaves the set of non-zero pixels unchanged; leaves every pixel of an unsplit segment (label included) unchanged; puts every output segment inside one input segment; '
           'gives children labels above every original label (no collision across parents); records for each split parent exactly the labels found on its pixels. relabel=True yields labels 1..N (finalize_labels_1N, reusing C05 relabel_labels). '
+          'New child labels never leave the dtype of the output array: the widening rule (Model/LabelDtype.lean: numpy min_scalar_type / promote_types on integer dtypes, fitDtype) yields a dtype that holds the new label and every old value, and changes nothing when the label already fits (Props/C06Dtype.lean: fitDtype_holds, fitDtype_unchanged, promote_max - defects F43/F46); tied by correspondence with deblend._fit_label_dtype over all 8 integer dtypes. ' \
           '[param] the watershed/multi-threshold step is a parameter; its contract and child >= npixels are checked on every generated case. Tie: real _deblend_source results are fed to the model and its output (array + map) is compared exactly with deblend_sources run serially '
           'and under a patched executor with reverse/rotated/random completion orders (thorough: real spawn pool).',
   'note': 'Trusted: Lean kernel + standard axioms; hand model Model/Deblend.lean tied by differential testing; skimage watershed and _detect_sources inside the per-source deblender are not modelled; real OS scheduling is replaced by adversarial orders through a patched as_completed.',
@@ -190,6 +191,7 @@ CLAIMS = {
   'technique': 'Lean 4 theorems on the bookkeeping model of PSFPhotometry / SourceGrouper (groups as graph components via the C04 theory, grouped<->input order permutation, fit-window counts, flags) + correspondence; recovery probed',
   'text': 'Proved in Lean: two sources receive the same group id iff they are linked by a chain of sources each within min_separation of the next - single linkage - and ids are numbered by first appearance (group_ids_are_components, reusing the connected-component theory of C04 on the point graph, pointGraph); '
           'values produced in grouped order and put back with argsort(ids) are in input order for EVERY grouping permutation, in particular for the stable group_by order the table uses (ungroup_restores_input_order, groupOrder_perm, fit_results_in_input_order); group_size counts the members (groupSizes_spec); the documented flag bits 1, 2, 4 are exactly their defining conditions (flags_bits). '
+          'every per-source list read back from the per-group results in __call__ (npixfit, nmodels) and the PSF-centre indices go through _ungroup = _order_by_id o _flatten (table obligation per_source_results_are_ungrouped over Gen/PsfTable.lean, regenerated from photometry.py every run). ' \
           '[partial] recovery of x, y, flux of a rendered scene depends on the optimiser and is NOT proved: it is checked on the implementation for noise-free scenes (Gaussian PRF, ImagePSF; isolated and moderately blended sources, edges, masks, shuffled rows, supplied group_id, flux scaling, fixed parameters, iterative(maxiters=1)==single). '
           'Tie: SourceGrouper on dyadic positions with exact ties at the separation vs the Lean component model; group ids/sizes, npixfit, invalid-position test and flag bits of real PSFPhotometry results vs the model.',
   'note': 'Trusted: Lean kernel + standard axioms; hand model tied by differential testing; astropy fitters, error estimates and the local-background estimator not modelled; very close blends (< 1 FWHM) are outside the generated scenes because convergence of the optimiser is not part of the model.',
